@@ -324,7 +324,7 @@ def main(argv):
         for fr in all_fragments():
             for extra in fr.get("extra_runs", []):
                 sub = dict(fr)
-                for k in ("extra_runs", "rewrite", "also"):
+                for k in ("extra_runs", "rewrite", "also", "fakes", "race"):
                     sub.pop(k, None)
                 sub.update(extra)
                 k = (sub["harness"], sub.get("mode", "plain"), json.dumps(sub.get("rewrite", {}), sort_keys=True), bool(sub.get("race")))
@@ -373,9 +373,8 @@ def main(argv):
             if replay and not extra.get("replay", False):
                 continue
             sub = dict(frag)
-            sub.pop("extra_runs", None)
-            sub.pop("rewrite", None)
-            sub.pop("also", None)
+            for k in ("extra_runs", "rewrite", "also", "fakes", "race"):
+                sub.pop(k, None)
             sub.update(extra)
             sub["evidence_suffix"] = "." + extra["name"]
             rc2 = run(sub, tier, replay, solo)
